@@ -1192,7 +1192,8 @@ def lines_e2e_cde(cases, workdir, stream, binary):
                 out.append(line("direct", ["C18"], ok=not has, what=f"no room list given, but courses {has[:5]} carry a possible-rooms field", case=i, stream=stream, nontrivial=False))
             if c.get("print") and c["rooms"] is not None:
                 # C18 on the CdE path: the rooms line of the listing is the list written into the possible-rooms
-                # field of the same run, and a course that holds people is offered at least one room
+                # field of the same run (which the CP line judges). Whether a line may be empty depends on the
+                # course's effective size — a course with room factor 0 needs no room — and is not judged here.
                 rprobs = []
                 try:
                     lst = parse_listing(so)
@@ -1203,14 +1204,12 @@ def lines_e2e_cde(cases, workdir, stream, binary):
                         for (hdr, cnt, rooms_line, entries, hidden), cid in zip(lst, exp[0]):
                             if rooms_line is None:
                                 rprobs.append(f"course {cid}: no rooms line although rooms were given"); continue
-                            if cnt and rooms_line.strip() == "":
-                                rprobs.append(f"course {cid} holds {cnt} people and is offered no room")
                             fld_ = (imp.get("courses", {}).get(str(cid), {}).get("fields") or {}).get("possible_rooms")
                             if c.get("prf") and fld_ is not None and fld_ != rooms_line:
                                 rprobs.append(f"course {cid}: listing says {rooms_line!r}, the field written in the same run {fld_!r}")
                 except Exception as e:
                     rprobs.append(f"listing could not be compared ({type(e).__name__}: {e})")
-                out.append(line("direct", ["C18"], ok=not rprobs, what="; ".join(rprobs[:3]) or "rooms lines of the listing agree with the field and offer a room to every course with people", case=i, stream=stream, feat=["cde-print-rooms"]))
+                out.append(line("direct", ["C18"], ok=not rprobs, what="; ".join(rprobs[:3]) or "rooms lines of the listing agree with the field written in the same run", case=i, stream=stream, feat=["cde-print-rooms"]))
             # (--print on the CdE path: the listing itself belongs to no property here — C14 speaks of the simple
             # format — so it is only run, not judged; a crash while printing shows in the first line above)
             if c.get("prf") and c["rooms"] is not None and not c.get("rooms_file"):
